@@ -235,6 +235,27 @@ impl HintInstance {
     }
 }
 
+/// Verification hook (off unless built with `--cfg googlefonts_fontations_verif`).
+#[cfg(googlefonts_fontations_verif)]
+impl HintInstance {
+    /// Renders the logical content of this instance, one line per component.
+    pub fn verif_state(&self) -> alloc::string::String {
+        alloc::format!(
+            "functions={:?}\ninstructions={:?}\ncvt={:?}\nstorage={:?}\ngraphics={:?}\ntwilight_scaled={:?}\ntwilight_original_scaled={:?}\ntwilight_flags={:?}\naxis_count={}\nmax_stack={}",
+            self.functions,
+            self.instructions,
+            self.cvt,
+            self.storage,
+            self.graphics,
+            self.twilight_scaled,
+            self.twilight_original_scaled,
+            self.twilight_flags,
+            self.axis_count,
+            self.max_stack
+        )
+    }
+}
+
 #[cfg(test)]
 impl HintInstance {
     /// Enable instruct control bit 1 which effectively disables hinting.
